@@ -4,7 +4,10 @@ Theorems: coq/Properties_C07.v (Crash- and OutOfFuel-freedom of bounds-accounted
 resolver, the tar reader and the text parsers; what the resolver answers on cycles / dangling links /
 directories).
 Tie (verdict+payload): extracted models vs. ASan+UBSan harnesses built from the working tree
-(h_hardlink.c, h_tar.c, h_text.c) on generated cases (gen.py).
+(h_hardlink.c, h_tar.c, h_text.c) on generated cases (gen.py).  The xattr map file leg (xfile) compares the
+extracted WHOLE-FILE model (coq/C07/XattrFileModel.v: istream_get_line, parse_file_name, parse_xattr, the lists, every
+allocation in a resource list) with xattr_open_map_file: verdict, decoded patterns (path, keys, value bytes, list
+order), and -- with LeakSanitizer asked after every case -- that a refusal / a close leaves nothing allocated.
 Search oracle: the ASan-built tar2sqfs / gensquashfs on hostile inputs: no signal, no sanitizer report,
 no time-out; exit 0 => image validates (vlib.sqfsimg); exit != 0 => diagnostic on stderr and no output file.
 """
@@ -74,6 +77,11 @@ def regen_gen_v():
 
 ASAN_ENV = dict(os.environ, ASAN_OPTIONS="detect_leaks=0:allocator_may_return_null=1:hard_rss_limit_mb=3000",
                 UBSAN_OPTIONS="print_stacktrace=1")
+
+
+# the xfile harness asks LeakSanitizer after every case (C07_LEAKCHECK): theorem xattr_file_graceful / xattr_open_close_clean
+# say that a refusal has released every allocation and that closing a map releases the rest
+LEAK_ENV = dict(ASAN_ENV, ASAN_OPTIONS=ASAN_ENV["ASAN_OPTIONS"].replace("detect_leaks=0", "detect_leaks=1"), C07_LEAKCHECK="1")
 
 
 def san_signature(err):
@@ -616,7 +624,13 @@ def text_cases(rnd, tier):
     xfile = [hx(m) for m in gen.text_mutants(rnd, gen.XATTR_BASE, [l for l in gen.XATTR_LINES if len(l) < 2000], 250 if q else 10000)]
     xfile += [hx(b"# file: file\n" + l + b"\n") for l in gen.XATTR_QUOTE_LINES if len(l) < 2000]
     xfile += [hx(l + b"\nuser.a=b\n") for l in gen.XATTR_QUOTE_LINES if l.startswith(b"#") and len(l) < 2000]
+    # the whole-file model (session 3): line endings / blank lines / window edges of istream_get_line, accepted and refused
+    # "# file:" lines behind earlier patterns, the three value syntaxes, refused values behind earlier entries
+    xfile += [hx(f) for f in gen.xattr_struct_files(rnd, 250 if q else 8000)]
     xfile = sorted(set(xfile))
+    big = [hx(f) for f in gen.xattr_big_files()]      # 134 kB each, ~1.4 s in the model: one per driver chunk
+    for j, f in enumerate(big):
+        xfile.insert((j * len(xfile)) // len(big), f)
     return dict(split=split, sort=sort, xdec=xdec, xfile=xfile)
 
 
@@ -635,7 +649,7 @@ def part_text(ctx, info, drv, tools, stats):
             outs_c = [None] * len(lines)
             inc_c = []
             with ThreadPoolExecutor(max_workers=4) as ex:
-                res = list(ex.map(lambda k: run_batch([h, mode, os.path.join(ctx.scratch, "xfile%d.tmp" % k)], parts[k], ASAN_ENV), range(4)))
+                res = list(ex.map(lambda k: run_batch([h, mode, os.path.join(ctx.scratch, "xfile%d.tmp" % k)], parts[k], LEAK_ENV), range(4)))
             for k, (o, inc) in enumerate(res):
                 for j, v in enumerate(o):
                     outs_c[idx[k][j]] = v
@@ -730,6 +744,11 @@ def part_text_tools(ctx, tools, stats):
         jobs.append(("sort", dict(sort=s)))
     for x in gen.quote_files(gen.XATTR_BASE, gen.XATTR_QUOTE_LINES, [b"user.q=", b"# file: "]):
         jobs.append(("xattr", dict(xattr=x)))
+    # structured xattr map files (the cases of the whole-file tie) on the tool
+    xs = gen.xattr_struct_files(rnd, 40 if q else 2000)
+    rnd.shuffle(xs)
+    for x in xs[:70 if q else 3000] + gen.xattr_big_files()[1:]:
+        jobs.append(("xattr", dict(xattr=x)))
     fails = {}
     counts = {}
     with ThreadPoolExecutor(max_workers=12) as ex:
@@ -782,7 +801,8 @@ def do_replay(ctx, info, drv, tools):
     if part == "text":
         h = B.compile_harness(info, [os.path.join(HERE, "h_text.c")], "c07_h_text",
                               extra=["-I" + os.path.join(B.REPO, "bin", "gensquashfs", "src")])
-        oc, ic = run_batch([h, r["mode"], os.path.join(ctx.scratch, "xfile.tmp")], [r["case"]], env=ASAN_ENV, timeout=60)
+        oc, ic = run_batch([h, r["mode"], os.path.join(ctx.scratch, "xfile.tmp")], [r["case"]],
+                           env=LEAK_ENV if r["mode"] == "xfile" else ASAN_ENV, timeout=60)
         om, _ = run_batch([drv, r["mode"]], [r["case"]])
         for i, kind, err in ic:
             report_incident(ctx, "text-" + r["mode"], r["case"], kind, err, r)
@@ -814,7 +834,7 @@ def run(ctx):
     drv = build_driver()
     tools = Tools(ctx, info)
     ctx.trusted += ["props/C07/h_hardlink.c, h_tar.c, h_text.c, driver.ml (hex I/O glue, canonical printing, exact-size heap copies of every input; "
-                    "sort lines: every stage once more on an exact-size copy of the string it is given)",
+                    "sort lines: every stage once more on an exact-size copy of the string it is given; xattr files: LeakSanitizer's recoverable leak check after every case)",
                     "ASan/UBSan verdicts (gcc -fsanitize=address,undefined -fno-sanitize-recover=all), SIGALRM time-out of %d s per case" % CASE_TIMEOUT,
                     "props/C07/gen.py (own tar encoder, mutators), vlib/sqfsimg.py validator for produced images",
                     "props/C07/gen_c07.c: translator /repo headers + <errno.h> -> coq/C07/GenC07.v (regenerated on every run)",
@@ -859,7 +879,10 @@ def run(ctx):
         "checksum-repaired bit flips; decoders: boundary tables + seeded random fields; text: one-line edits of valid pack/sort/xattr files + a table of hostile lines + quoting case splits "
         "(token ends: lone quote / backslash / escaped quote / escaped backslash / closed / closed+blank in 2-6 contexts per parser; every string of <= 5 symbols "
         "over {quote, backslash, letter, blank} behind an opening quote); a text tie disagreement is followed by a search over the line's edits at the case "
-        "splits on the ASan harness and the ASan tool; seed %d. "
+        "splits on the ASan harness and the ASan tool; xattr map files additionally: structured files over pools of accepted / refused '# file:' lines, "
+        "the three value syntaxes (good and bad), comments, blank lines and NUL, every line ending of {LF, CR LF, CR CR LF, blank+LF, double LF}, with and without "
+        "the final newline, and three files larger than the 128 KiB stream window (a line straddling the edge, LF resp. CR as the last byte of the window) "
+        "against the extracted whole-file model run with three window oracles (everything / 7 bytes / 1 byte); seed %d. "
         "non-trivial = the model reaches a resolver verdict (hl), decodes at least one header or rejects after the checksum (tar), decoder accepts (dec)" % ctx.seed)
     ctx.coverage["distribution"] = stats
     ctx.add_samples(samples)
